@@ -42,6 +42,8 @@ THEOREMS = [P + n for n in (
     'cond_perm_entries', 'measures_cond_perm',
     'centreKernel_symm', 'centreKernel_row_sum', 'centreKernel_perm',
     'bures_symm_partial', 'bures_self_partial', 'bures_metric_self_partial',
+    'whitened_fast_eq_V', 'whitened_corr_fast_eq_V', 'rhoA_coded_eq', 'fast_coded_eq', 'accepts_iff',
+    'getV_none_posDef', 'whitened_none_props',
 )]
 RULE = ('cases come from one PRNG: kind compare (n = 3..7 conditions, stacks of 1..4 RDMs, '
         'small integer / quarter-valued dissimilarities with many ties, negatives, occasional '
@@ -58,7 +60,8 @@ BRANCHES = (['method:' + m for m in METHODS] +
             ['sigma:none', 'sigma:vec', 'sigma:vec_const', 'sigma:mat',
              'input:array', 'input:rdms', 'input:mixed', 'perm', 'ties', 'no_ties', 'negative',
              'zero_norm', 'kendall_nan', 'stack>1', 'self_pair', 'kind:getv', 'kind:ranks',
-             'fast_path_vs_V'])
+             'fast_path_vs_V', 'input:array1d', 'kind:reject', 'reject:method', 'reject:shape',
+             'getv:matrix_get_v', 'bures:second_way'])
 ASSUMPTIONS = [
     'IEEE evaluation of either side is within the stated tolerance of the real value '
     '(inputs are small integers / quarters, n <= 7, well-conditioned sigma_k)',
@@ -124,6 +127,9 @@ def _call(x, y, method, sigma, form):
     from rsatoolbox.rdm import RDMs
     try:
         xa, ya = _arr(x), _arr(y)
+        if form == 'array1d':        # a single RDM passed as a 1-D vector (`reshape(1, -1)` branch)
+            xa = xa[0] if len(x) == 1 else xa
+            ya = ya[0] if len(y) == 1 else ya
         if form in ('rdms', 'mixed'):
             xa = RDMs(dissimilarities=xa)
         if form == 'rdms':
@@ -213,9 +219,30 @@ def _compare_case(rng, method, nmax):
     perm = list(range(n))
     if rng.random() < 0.7:
         rng.shuffle(perm)
+    form = rng.choice(['array', 'rdms', 'rdms', 'mixed'])
+    if (nx == 1 or ny == 1) and rng.random() < 0.35:
+        form = 'array1d'
     return {'kind': 'compare', 'method': method, 'n': n, 'x': x, 'y': y, 'sigma': sigma,
-            'form': rng.choice(['array', 'rdms', 'rdms', 'mixed']),
+            'form': form,
             'perm': None if perm == list(range(n)) else perm}
+
+
+def _reject_case(rng):
+    """the malformed stream the dispatch itself speaks about: unknown method name, or stacks
+    whose RDMs have different numbers of conditions"""
+    n = rng.randint(3, 5)
+    m = n * (n - 1) // 2
+    if rng.random() < 0.5:
+        method = rng.choice(['tau-c', 'pearson', 'Cosine', 'cosine ', '', 'kendall-tau', 'rho_a', 'corr-cov'])
+        ny_len = m
+    else:
+        method = rng.choice(METHODS)
+        n2 = rng.choice([k for k in range(3, 7) if k != n])
+        ny_len = n2 * (n2 - 1) // 2
+    x = [_vector(rng, m, 'neg') for _ in range(rng.randint(1, 3))]
+    y = [_vector(rng, ny_len, 'neg') for _ in range(rng.randint(1, 3))]
+    return {'kind': 'reject', 'method': method, 'x': x, 'y': y,
+            'form': rng.choice(['array', 'rdms', 'mixed'])}
 
 
 def generate(rng, tier):
@@ -224,6 +251,8 @@ def generate(rng, tier):
     for _ in range(per_method):
         for method in METHODS:
             yield _compare_case(rng, method, nmax)
+    for _ in range(24 if tier == 'quick' else 300):
+        yield _reject_case(rng)
     for _ in range(20 if tier == 'quick' else 400):
         n = rng.randint(2, nmax)
         yield {'kind': 'getv', 'n': n, 'sigma': _sigma(rng, n, rng.choice(['none', 'vec', 'vec_const', 'mat']))}
@@ -251,7 +280,17 @@ def search(rng, tier):
 def run_impl(case):
     if case['kind'] == 'getv':
         v = _cmp._get_v(case['n'], _sigma_np(case['sigma']))
-        return [[rat(F(float(a))) for a in row] for row in np.asarray(v.todense()).tolist()]
+        out = [[rat(F(float(a))) for a in row] for row in np.asarray(v.todense()).tolist()]
+        if case['sigma'] is None or 'mat' in case['sigma']:
+            # util/matrix.py:get_v, the public twin of _get_v (takes None or a matrix)
+            from rsatoolbox.util.matrix import get_v
+            v2 = get_v(case['n'], _sigma_np(case['sigma']))
+            return {'_get_v': out, 'get_v': [[rat(F(float(a))) for a in row]
+                                             for row in np.asarray(v2.todense()).tolist()]}
+        return {'_get_v': out}
+    if case['kind'] == 'reject':
+        r = _call(case['x'], case['y'], case['method'], None, case['form'])
+        return r if isinstance(r, dict) else 'ok'
     if case['kind'] == 'ranks':
         import scipy.stats
         return [rat(F(float(a))) for a in scipy.stats.rankdata(np.array([_fl(v) for v in case['x']]))]
@@ -263,6 +302,12 @@ def run_impl(case):
         xp = [permute_vec(v, n, perm) for v in case['x']]
         yp = [permute_vec(v, n, perm) for v in case['y']]
         out['perm'] = _call(xp, yp, case['method'], permute_sigma(case['sigma'], perm), case['form'])
+    if case['method'].startswith('bures'):
+        # the alternative implementations kept beside the ones `compare` calls
+        f = _cmp._bures_similarity_second_way if case['method'] == 'bures' else _cmp._sq_bures_metric_second_way
+        gx = [orc.kernel(n, [F(unrat(v)) for v in r]) for r in case['x']]
+        gy = [orc.kernel(n, [F(unrat(v)) for v in r]) for r in case['y']]
+        out['second_way'] = _mat_out([[f(a, b) for b in gy] for a in gx])
     return out
 
 
@@ -292,6 +337,9 @@ def model_requests(case):
                  'sigma': _sigma_wire(case['sigma'], lambda v: rat(unrat(v)))}]
     if case['kind'] == 'ranks':
         return [{'op': 'c03.ranks', 'x': [rat(unrat(v)) for v in case['x']]}]
+    if case['kind'] == 'reject':
+        return [{'op': 'c03.accepts', 'method': case['method'], 'lx': len(case['x'][0]),
+                 'ly': len(case['y'][0])}]
     n, perm, method = case['n'], case['perm'], case['method']
     reqs = [_req(method, n, case['x'], case['y'], case['sigma'])]
     if perm is not None:
@@ -312,7 +360,7 @@ def _decode(case, ans):
 
 
 def model_result(case, answers):
-    if case['kind'] in ('getv', 'ranks'):
+    if case['kind'] in ('getv', 'ranks', 'reject'):
         return answers[0]
     out = {'base': _decode(case, answers[0])}
     k = 1
@@ -363,15 +411,22 @@ def compare(case, impl, model):
     if case['kind'] == 'getv':
         if model['coded'] != model['spec']:
             return 'model: V as coded differs from V as defined'
-        a = [[unrat(v) for v in r] for r in impl]
         b = [[unrat(v) for v in r] for r in model['spec']]
-        return None if a == b else f'_get_v differs from the definition: {impl} != {model["spec"]}'
+        for key, val in impl.items():
+            a = [[unrat(v) for v in r] for r in val]
+            if a != b:
+                return f'{key} differs from the definition: {val} != {model["spec"]}'
+        return None
+    if case['kind'] == 'reject':
+        want = 'ok' if model == 'ok' else {'exc': model}
+        return None if impl == want else f'argument check: impl {impl} != model {want}'
     if case['kind'] == 'ranks':
         a, b = [unrat(v) for v in impl], [unrat(v) for v in model]
         return None if a == b else f'rankdata {impl} != tie-averaged ranks {model}'
     rtol, atol = tolerance(case)
     und = case['method'] in ('corr_cov', 'cosine_cov')
-    for key, mkey in (('array', 'base'), ('rdms', 'base'), ('mixed', 'base'), ('perm', 'perm')):
+    for key, mkey in (('array', 'base'), ('rdms', 'base'), ('mixed', 'base'), ('array1d', 'base'),
+                      ('second_way', 'base'), ('perm', 'perm')):
         if key in impl:
             d = _diff_matrix(impl[key], model[mkey], rtol, atol, und)
             if d:
@@ -406,12 +461,21 @@ def sigma_kind(sig):
 
 
 def features(case, impl):
+    if case['kind'] == 'reject':
+        bad_method = case['method'] not in METHODS
+        return {'kind': 'reject', 'form': case['form'],
+                'branches': ['kind:reject', 'reject:method' if bad_method else 'reject:shape']}
     if case['kind'] != 'compare':
+        br = ['kind:' + case['kind']]
+        if case['kind'] == 'getv' and (case['sigma'] is None or 'mat' in case['sigma']):
+            br.append('getv:matrix_get_v')
         return {'kind': case['kind'], 'n': case.get('n'), 'sigma': sigma_kind(case.get('sigma')),
-                'branches': ['kind:' + case['kind']]}
+                'branches': br}
     vs = case['x'] + case['y']
     sk = sigma_kind(case['sigma'])
     br = ['method:' + case['method'], 'input:' + case['form']]
+    if case['method'].startswith('bures'):
+        br.append('bures:second_way')
     if case['method'] in ('corr_cov', 'cosine_cov'):
         br.append('sigma:' + sk)
         if case['sigma'] is None:
@@ -445,9 +509,16 @@ def nontrivial_key(case, impl):
 
 def oracle(case):
     if case['kind'] == 'getv':
-        return orc.check_getv(case, run_impl(case))
+        r = run_impl(case)
+        for key in r:
+            o = orc.check_getv(case, r[key])
+            if o:
+                return o
+        return None
     if case['kind'] == 'ranks':
         return orc.check_ranks(case, run_impl(case))
+    if case['kind'] == 'reject':
+        return orc.check_reject(case, run_impl(case))
     return orc.check_compare(case, _call, permute_vec, permute_sigma)
 
 
